@@ -46,6 +46,42 @@ chk("C13", "model_checking",
     "against MeshAfterPoll with an independent success/stall oracle recomputed from the improvement arguments.",
     RUN_NOTE, "TLC model checking of BadsRun.tla + TLA+ trace validation of real runs", "DESIGN.md 6 C13")
 
+chk("C10", "fault_enumeration",
+    "A fault-free reference run labels every target call with its position kind (x0, noise test, initial design, search, poll, final re-sampling); "
+    "the fault (exception, NaN, +-inf, complex, vector, None; under specified noise also bad pair/SD forms) is injected at call k for every kind of position, "
+    "in deterministic/auto/declared/specified modes; each faulted trace is validated by TLC against BadsRunTrace (TargetFault semantics of BadsRun.tla: "
+    "same exception type / ValueError, no call after the fault, func_count counts valid calls only, nothing invalid logged). thorough: every k.",
+    RUN_NOTE, "fault enumeration over call positions, each faulted run validated by TLC against BadsRunTrace.tla; TargetFault in BadsRun.tla model-checked", "DESIGN.md 6 C10")
+chk("C12", "model_checking",
+    "FuncLog.tla (log as a sequence of records, exact rational precision-weighted merge, ghost sums stating the property) model-checked: OtherRecordsUntouched, AppendOnly, "
+    "CountsExact, MergedIsWeightedMean; every behaviour to depth 3 (state dump) and simulated behaviours to depth 12 replayed into a real FunctionLogger "
+    "(with/without transformer, cache size 2 forcing growth), whole projected state compared after every operation; final logs of full runs checked against the call sequence.",
+    "Trusted base: TLC, the TLA value parser, the replay driver. Bounded instance: 4 points incl. partial overlaps, values {0,3}, precisions {1,4}.",
+    "TLC model checking of FuncLog.tla + replay of TLC-enumerated behaviours into the real FunctionLogger", "DESIGN.md 6 C12")
+chk("C14", "model_checking",
+    "PollDirs.tla: TLC enumerates every outcome of the generator's random choices (D<=3, mesh ratio 1,2,4) and checks non-singularity (|det| = n^D), bounds, symmetry, "
+    "signed-permutation for n=1; every enumerated choice tuple is replayed into the real poll_mads_2n through a scripted random source and compared; "
+    "in full runs TLC checks every polled point's integer offset is a not-yet-used direction and at most 2D points are polled.",
+    RUN_NOTE, "TLC exhaustive enumeration of PollDirs.tla replayed into the real generator + TLA+ trace validation of runs", "DESIGN.md 6 C14")
+chk("C15", "model_checking",
+    "Every GP (re)fit, posterior update and acquisition call of every panel run is recorded and validated by TLC (BadsRunTrace): training pairs are log records, noise = logged SD squared, "
+    "neighbours sorted by length-scaled distance and downward closed, size rule, incremental add appends the newest record, LCB formula with t = func_count + 1.",
+    RUN_NOTE, "TLA+ trace validation (TLC) of recorded GP seam events of real runs", "DESIGN.md 6 C15")
+chk("C17", "model_checking",
+    "CandFilter.tla: TLC enumerates every input of the small lattice instance (candidates in {-1..2}^D, D<=2, any evaluated subset, any infeasible subset, proj on/off); "
+    "each is replayed into the real contraints_check with a real FunctionLogger and the property's postconditions are evaluated on the output; "
+    "every filter call of every panel run is validated in TLC through summary counts.",
+    RUN_NOTE + " The clause 'not already evaluated' is a recorded known finding (pinned by an existing test).",
+    "TLC exhaustive enumeration of CandFilter.tla replayed into the real filter + TLA+ trace validation of runs", "DESIGN.md 6 C17")
+chk("C18", "model_checking",
+    "Every search step of every panel run validated in TLC: the strategy's return is the acquisition argmin over all candidates it generated that survived filtering, "
+    "all inside the mesh-rounded box, hedge probabilities proper, at most one evaluation per search step.",
+    RUN_NOTE, "TLA+ trace validation (TLC) of recorded search-step events of real runs + BadsRun.tla (SearchOneEval)", "DESIGN.md 6 C18")
+chk("C19", "model_checking",
+    "Run level: every history record and the result of every panel run validated in TLC against the call log (x evaluated, yval observed there, func_count monotone and exact, "
+    "result among the iterates, result fields agree).",
+    RUN_NOTE, "TLA+ trace validation (TLC) of recorded real runs against BadsRunTrace.tla", "DESIGN.md 6 C19")
+
 ALL = ["C%02d" % i for i in range(1, 21)]
 
 
